@@ -2,8 +2,16 @@
    is quiet when the connection is idle, and is readable at once when the awaited condition is already met. */
 #include "sysutil.h"
 #include <poll.h>
+#include <time.h>
 
 static int viol;
+
+static double h_now(void)
+{
+    struct timespec ts;
+    clock_gettime(CLOCK_MONOTONIC, &ts);
+    return ts.tv_sec + ts.tv_nsec / 1e9;
+}
 
 /* readiness of the xcm fd sampled `n` times over a settle window; returns how often it was readable;
    any other revents bit is a violation by itself */
@@ -154,6 +162,52 @@ int main(void)
 	    int r2 = xcm_receive(t.accepted, rb, sizeof(rb)); int e2 = errno;
 	    fprintf(o, "accepted=%ld delivered=%ld finish=%d,%d spin_client=%d spin_accepted=%d receive=%s\n", acc, got, fc, fa, qc, qa,
 		    r2 < 0 ? h_errname(e2) : r2 == 0 ? "0" : "data");
+	    sys_close_trio(&t);
+	} else if (!strcmp(w[0], "RONLY") && n == 2) {
+	    /* RONLY <proto>: the sender fills the connection until xcm_send reports EAGAIN, then only ever awaits RECEIVABLE and
+	       calls xcm_receive when (and only when) its fd is readable - never send or finish again.  Phase A: the peer does not
+	       read (300 ms): the sender's fd must be quiet.  Phase B: the peer reads: everything accepted must arrive. */
+	    const char *proto = w[1];
+	    bool bs = sys_is_bytestream(proto);
+	    struct trio t;
+	    if (sys_establish(proto, &t, NULL, NULL) < 0) { fprintf(o, "fail %s\n", h_errname(errno)); fflush(o); continue; }
+	    static char big[50000], rb[70000];
+	    long acc = 0, got = 0; int other = 0, refused = 0;
+	    memset(big, 'r', sizeof(big));
+	    for (int i = 0; i < 4000; i++) {
+		int rc = xcm_send(t.client, big, bs ? sizeof(big) : 40000);
+		if (rc < 0) { refused = errno == EAGAIN; break; }
+		acc += bs ? rc : 40000;
+	    }
+	    xcm_await(t.client, XCM_SO_RECEIVABLE);
+	    int fd = xcm_fd(t.client), wakeA = 0, wakeB = 0, rerr = 0;
+	    double t0 = h_now();
+	    while (h_now() - t0 < 0.3) {
+		struct pollfd p = { .fd = fd, .events = POLLIN };
+		if (poll(&p, 1, 10) > 0) {
+		    wakeA++;
+		    int r = xcm_receive(t.client, rb, sizeof(rb));
+		    if (!(r < 0 && errno == EAGAIN)) { rerr = 1; break; }
+		}
+	    }
+	    t0 = h_now();
+	    int idle = 0;
+	    while (h_now() - t0 < 4.0 && !rerr) {
+		int r = xcm_receive(t.accepted, rb, sizeof(rb));
+		if (r > 0) { got += r; idle = 0; }
+		else if (r < 0 && errno == EAGAIN) idle++;
+		else break;
+		struct pollfd p = { .fd = fd, .events = POLLIN };
+		if (poll(&p, 1, r > 0 ? 0 : 2) > 0) {
+		    wakeB++;
+		    int r2 = xcm_receive(t.client, rb, sizeof(rb));
+		    if (!(r2 < 0 && errno == EAGAIN)) { rerr = 1; break; }
+		}
+		if (got >= acc && idle > 50) break;
+	    }
+	    usleep(20000);
+	    int qc = sample(t.client, 30, &other);
+	    fprintf(o, "refused=%d accepted=%ld delivered=%ld wakeA=%d wakeB=%d spin_after=%d rerr=%d\n", refused, acc, got, wakeA, wakeB, qc, rerr);
 	    sys_close_trio(&t);
 	} else
 	    fputs("bad-op\n", o);
